@@ -550,3 +550,49 @@ def missing_default_contradiction(ctx, rep: Report, rule: str):
                                       f"{init.module.relpath}:{init.node.lineno}", "spec_class.__init__"))
     if nopt < 2:
         raise AnalysisError(f"{rule}: only {nopt} MISSING-guarded options found (floor 2)")
+
+
+# -------------------------------------------------------------------------------------------------
+def for_class_rule(ctx, rep: Report, rule: str, aspects=("dnc", "attrs", "mro")):
+    """SpecClassMetadata.for_class interpreted; the keyword values handed to the metadata constructor on every path:
+    dnc   - the class-level do_not_copy flag is never inherited (always False; bootstrap only ever sets it to True);
+    attrs - the attribute table is a new dict (never a parent's own table: a subclass adds to / replaces entries of it);
+    mro   - frozen / key / init_overflow_attr come from the nearest ancestor along the MRO that carries its own metadata
+            (not from whichever base happens to be listed last)."""
+    from ..common import Outcome
+    from ..exprs import prov_of
+    from ..values import ClassV
+    rep.rules[rule] = "keyword values of the metadata constructor in SpecClassMetadata.for_class, on every interpreted path"
+    fi = ctx.p.find_function("SpecClassMetadata.for_class")
+    ci = ctx.p.find_class("SpecClassMetadata")
+    rows = set()
+
+    def conf(cfg):
+        cfg.user_may_raise = False
+        cfg.loop_unroll = 2
+
+        def hook(interp, st, what, args, kwargs, frame, node):
+            if what[0] == "value" and isinstance(what[1], ClassV) and what[1].ci is ci:
+                rows.add(tuple(sorted((k, vrepr(v), tuple(sorted(prov_of(st, v)))) for k, v in kwargs.items() if k != "**")))
+                return [Outcome("ok", st, Sym(("metadata_new",), {FRESH}))]
+            return None
+        cfg.call_hooks.insert(0, hook)
+    it, outs = run_function(ctx.p, ctx.H, fi, [ClassV(ci), Sym(("spec_cls",), {CLS}, tags={"nonsentinel"})], {}, configure=conf)
+    rep.functions |= set(it.functions_entered)
+    rep.evaluations += len(outs)
+    inherited = [dict((k, (v, p)) for k, v, p in r) for r in rows if any(k == "attrs" for k, _, _ in r)]
+    if not inherited:
+        raise AnalysisError(f"{rule}: no inheriting construction observed in SpecClassMetadata.for_class")
+    bad = []
+    for r in inherited:
+        if "dnc" in aspects and "do_not_copy" in r and r["do_not_copy"][0] != "False":
+            bad.append(f"the class-level do_not_copy flag is inherited (`{r['do_not_copy'][0]}`): a subclass of a do_not_copy=True class is never copied, even when declared without the flag")
+        if "attrs" in aspects and set(r["attrs"][1]) - {FRESH}:
+            bad.append(f"the attribute table handed to the new metadata is a parent's own table (`{r['attrs'][0]}`): attributes a subclass adds or overrides leak into the parent and its other subclasses")
+        if "mro" in aspects:
+            for k in ("frozen", "key", "init_overflow_attr"):
+                if k in r and ".mro()" not in r[k][0] and "__mro__" not in r[k][0]:
+                    bad.append(f"`{k}` is inherited from `{r[k][0]}` rather than from the nearest ancestor along the MRO")
+    rep.oblige(rule, "SpecClassMetadata.for_class", not bad, "; ".join(sorted(set(bad))[:2]))
+    for b in sorted(set(bad))[:3]:
+        rep.violate(Violation(rule, f"{rule}|for_class|{b[:50]}", f"SpecClassMetadata.for_class: {b}", f"{fi.module.relpath}:{fi.node.lineno}", "SpecClassMetadata.for_class"))
